@@ -78,8 +78,8 @@ func clampEth(i int) int {
 }
 
 func short(s string) string {
-	if len(s) > 160 {
-		return s[:160]
+	if len(s) > 200 { // the innermost message is at the end
+		return "..." + s[len(s)-200:]
 	}
 	return s
 }
